@@ -562,3 +562,26 @@ Section Regen.
   Definition regen (old : option str) (hist : list (bool * settings)) : option str :=
     fold_left (fun f r => fst (write_step f (fst r) (snd r))) hist old.
 End Regen.
+
+(* ---------- one run, several output files ---------- *)
+(* Every output file is rendered from its own (package-level) template-data: the boilerplate
+   is read with template_funcs.ReadFile (os.ReadFile of exactly the configured path string, at
+   that moment; no state is kept between files) and the tags are that file's tags. *)
+Definition read_file (fsys : str -> option str) (path : str) : option str :=
+  match path with [] => Some [] | _ => fsys path end.
+
+Record job := { j_fmt : formatter; j_tmpl : tmpl; j_bpfile : option str; j_tags : option str; j_pkg : str }.
+
+(* None = the template fails (file cannot be read) *)
+Definition job_settings (fsys : str -> option str) (j : job) : option settings :=
+  match j_bpfile j with
+  | None => Some {| s_fmt := j_fmt j; s_tmpl := j_tmpl j; s_bp := None; s_tags := j_tags j; s_pkg := j_pkg j |}
+  | Some p =>
+    match read_file fsys p with
+    | Some b => Some {| s_fmt := j_fmt j; s_tmpl := j_tmpl j; s_bp := Some b; s_tags := j_tags j; s_pkg := j_pkg j |}
+    | None => None
+    end
+  end.
+
+Definition run_all (body : settings -> str) (fsys : str -> option str) (jobs : list job) : list (option str) :=
+  map (fun j => option_map (render_file body) (job_settings fsys j)) jobs.
